@@ -163,6 +163,37 @@ func runC20(c *core.Ctx) {
 					}
 				}
 			}
+			// --- pool allocator on the degenerate shape: get / use / put / get
+			{
+				cid := base + "/pool"
+				ev("Pool["+t.Name+"]", "pool-cycle", cid, d)
+				p, msg := core.Guard(func() {
+					pool := t.PoolAlloc(signal.Allocator{Channels: g.ch, Length: g.l, Capacity: g.k})
+					for round := 0; round < 3; round++ {
+						gb := pool.Get()
+						wantLen := g.ch * g.l
+						if gb.RawLen() != wantLen || gb.RawCap() != g.ch*g.k {
+							c.Violate("Pool["+t.Name+"]|shape", cid, fmt.Sprintf("round %d: Get on a degenerate allocator returned %v", round, mon.ShapeOf(gb)), d)
+							return
+						}
+						if zeroShape && (gb.Len() != 0 || gb.Cap() != 0 || gb.Length() != 0 || gb.Capacity() != 0) {
+							c.Violate("Pool["+t.Name+"]|nonzero", cid, fmt.Sprintf("round %d: pooled degenerate buffer reports %v", round, mon.ShapeOf(gb)), d)
+							return
+						}
+						for i := 0; i < gb.RawCap(); i++ {
+							if !gb.RawAt(i).IsZero() {
+								c.Violate("Pool["+t.Name+"]|dirty", cid, fmt.Sprintf("round %d: pooled buffer holds %v at %d", round, gb.RawAt(i), i), d)
+								return
+							}
+						}
+						gb.AppendSample(mon.Canary(t.TypeInfo, round, 5))
+						pool.Put(gb)
+					}
+				})
+				if p {
+					c.Violate("Pool["+t.Name+"]|panic", cid, "get/put cycle on a pool with a degenerate allocator panicked: "+msg, d)
+				}
+			}
 			// --- Read / Write / striped forms
 			for oi, o := range dyn.Types[:dyn.NBuiltin] {
 				if !pairAll && !(oi == ti || (oi+gi)%5 == 0) {
